@@ -94,6 +94,13 @@ type gen struct {
 	profile string
 	// identifiers this history has already tried to create, per kind (references mostly resolve)
 	made map[string][]string
+	// follow-up entries a generator wants emitted right after the one it returns (scripted shapes)
+	queue []queued
+}
+
+type queued struct {
+	data []byte
+	tag  string
 }
 
 // ref picks an identifier of the given kind: mostly one a previous command tried to create.
@@ -1134,6 +1141,40 @@ func (g *gen) genManualVIPs() ([]byte, string) {
 	psn := structs.PeeredServiceName{ServiceName: structs.NewServiceName(g.ref("vipsvc", svcNames), nil), Peer: g.pick([]string{"", "", "", "", "", "peer-a"})}
 	req := state.ServiceVirtualIP{Service: psn}
 	n := g.r.Intn(4)
+	if vs := g.made["vipsvc"]; len(vs) >= 2 && g.r.Chance(25) {
+		// scripted shape: two (or three) services get one address each, then another service takes all
+		// of them at once, so the reply has to list several services in UnassignedFrom
+		names := append([]string(nil), vs...)
+		hx.Shuffle(g.r, names)
+		uniq := []string{}
+		for _, n := range names {
+			dup := false
+			for _, u := range uniq {
+				dup = dup || u == n
+			}
+			if !dup {
+				uniq = append(uniq, n)
+			}
+		}
+		if len(uniq) >= 3 {
+			one := func(svc string, ips ...string) []byte {
+				return mp(structs.UpdateVirtualIPRequestType, &state.ServiceVirtualIP{Service: structs.PeeredServiceName{ServiceName: structs.NewServiceName(svc, nil)}, ManualIPs: ips})
+			}
+			g.queue = append(g.queue, queued{one(uniq[1], manualIPs[1]), "manual-vip:script-2"})
+			if len(uniq) >= 4 || g.r.Bool() {
+				g.queue = append(g.queue, queued{one(uniq[2], manualIPs[2]), "manual-vip:script-2b"})
+				g.queue = append(g.queue, queued{one(uniq[0], manualIPs[2], manualIPs[0], manualIPs[1]), "manual-vip:script-take-all"})
+			} else {
+				g.queue = append(g.queue, queued{one(uniq[2], manualIPs[1], manualIPs[0]), "manual-vip:script-take-all"})
+			}
+			return one(uniq[0], manualIPs[0]), "manual-vip:script-1"
+		}
+	}
+	if g.r.Chance(12) {
+		// take all three well-formed addresses at once
+		req.ManualIPs = []string{manualIPs[2], manualIPs[0], manualIPs[1]}
+		return mp(structs.UpdateVirtualIPRequestType, &req), "manual-vip:steal-all"
+	}
 	for i := 0; i < n; i++ {
 		if g.r.Chance(85) {
 			req.ManualIPs = append(req.ManualIPs, manualIPs[g.r.Intn(3)]) // the three well-formed ones: collisions between services
